@@ -8,6 +8,7 @@ import (
 	"runtime"
 	"runtime/debug"
 	"strings"
+	"syscall"
 	"time"
 
 	"verifharness/engines/mutate"
@@ -23,6 +24,7 @@ const (
 	// normal latency of every target is µs..ms; the first watchdog is > 1000x
 	// that, and a hit is only called a hang after a further doubled budget.
 	watchdog = 20 * time.Second
+	hardCap  = 10 * time.Minute
 )
 
 // guard runs the calls of one target inside one case and accounts outcomes.
@@ -132,24 +134,45 @@ func (g *guard) call(sub string, m mutate.Mutant, f func() error) bool {
 	case res = <-done:
 		t.Stop()
 	case <-t.C:
-		// slow or hung: give the same call twice the budget again before calling it a hang
+		// Slow or hung. Wall-clock alone cannot tell a hang from a starved
+		// process (the machine may be heavily oversubscribed), so the verdict
+		// needs more: after a further doubled budget the call is a hang only
+		// if its goroutine is parked (blocked on something) or the process has
+		// burnt real CPU time in the meantime (a busy loop). A runnable but
+		// starved call keeps waiting, up to a hard cap.
 		g.c.Count(name+".watchdog_first_hit", 1)
-		t2 := time.NewTimer(2 * watchdog)
-		select {
-		case res = <-done:
-			t2.Stop()
-			g.c.Count(name+".slow_calls", 1)
-		case <-t2.C:
+		cpu0 := processCPU()
+		start := time.Now()
+		hung, dump := false, ""
+		for !hung {
+			tick := time.NewTimer(5 * time.Second)
+			select {
+			case res = <-done:
+				tick.Stop()
+				g.c.Count(name+".slow_calls", 1)
+				goto finished
+			case <-tick.C:
+			}
+			waited := time.Since(start)
+			if waited < 2*watchdog {
+				continue
+			}
 			buf := make([]byte, 1<<20)
-			n := runtime.Stack(buf, true)
-			dump := string(buf[:n])
-			frame := hangFrame(dump)
-			g.c.Violation("hang:"+g.target+":"+frame, "call on hostile input at "+name+" did not return within the watchdog (20 s + 40 s; normal latency is µs–ms)",
-				map[string]any{"target": name, "class": m.Label(), "input_hex": hexHead(m.Data), "input_len": len(m.Data), "goroutines": trim(dump, 6000)})
-			g.hung = true
-			return false
+			dump = string(buf[:runtime.Stack(buf, true)])
+			state := callGoroutineState(dump)
+			burnt := processCPU() - cpu0
+			if (state != "running" && state != "runnable") || burnt > watchdog || waited > hardCap {
+				hung = true
+				g.c.Count(name+".hang_state:"+state, 1)
+			}
 		}
+		frame := hangFrame(dump)
+		g.c.Violation("hang:"+g.target+":"+frame, "call on hostile input at "+name+" did not return within the watchdog (20 s + 40 s, goroutine parked or process CPU burnt; normal latency is µs–ms)",
+			map[string]any{"target": name, "class": m.Label(), "input_hex": hexHead(m.Data), "input_len": len(m.Data), "goroutines": trim(dump, 6000)})
+		g.hung = true
+		return false
 	}
+finished:
 	runtime.ReadMemStats(&after)
 	alloc := after.TotalAlloc - before.TotalAlloc
 	inLen := len(m.Data)
@@ -232,11 +255,8 @@ func (g *guard) finish() {
 	if g.acc == 0 && len(g.errs) <= 1 && g.inputs > 0 {
 		g.c.Count(g.target+".shallow_cases", 1)
 	}
-	if g.hung {
-		// the leaked goroutine may hold locks or spin: park until lib's case
-		// watchdog restarts the worker after this case
-		select {}
-	}
+	// after a hang the rest of the case is skipped; every fixture is per case,
+	// so the leaked goroutine cannot block later cases
 }
 
 func trim(s string, n int) string {
@@ -286,4 +306,32 @@ func withInlineCaller(stack, frame string) string {
 		}
 	}
 	return frame
+}
+
+// processCPU returns user+system CPU time consumed by this process.
+func processCPU() time.Duration {
+	var ru syscall.Rusage
+	if err := syscall.Getrusage(syscall.RUSAGE_SELF, &ru); err != nil {
+		return 0
+	}
+	return time.Duration(ru.Utime.Nano() + ru.Stime.Nano())
+}
+
+// callGoroutineState returns the scheduler state ("running", "runnable",
+// "chan receive", "select", ...) of the goroutine executing the guarded call.
+func callGoroutineState(dump string) string {
+	for _, gr := range strings.Split(dump, "\n\n") {
+		if strings.Contains(gr, "c11.(*guard).call.func1") {
+			if i := strings.Index(gr, "["); i >= 0 {
+				if j := strings.Index(gr[i:], "]"); j > 0 {
+					st := gr[i+1 : i+j]
+					if k := strings.Index(st, ","); k >= 0 {
+						st = st[:k]
+					}
+					return st
+				}
+			}
+		}
+	}
+	return "unknown"
 }
